@@ -425,8 +425,22 @@ func doCap(c *vh.Ctx, cc *capCase) {
 		}
 		lo = hi
 	}
+	// the outcome is awaited, not timed: the real readLoop re-decodes the 16 MiB
+	// buffer after every segment, which takes seconds on an idle machine and
+	// minutes on a loaded one; the bound only limits a run on a broken tree
+	settle := func() {
+		deadline := time.Now().Add(10 * time.Minute)
+		for time.Now().Before(deadline) {
+			srv.pollErr()
+			if srv.errSeen || srv.count() > 0 {
+				return
+			}
+			time.Sleep(2 * time.Millisecond)
+		}
+	}
+	settle()
 	if errDueAt >= 0 {
-		if !srv.waitFor(0, true, 3*waitTimeout) {
+		if !srv.errSeen {
 			c.Res.Violate("monitor", "cap-not-enforced", fmt.Sprintf("an incomplete buffer of %d bytes exceeds the cap %d but no error was reported", ends[errDueAt], cc.Cap), cc)
 		}
 		if srv.count() != 0 {
@@ -435,7 +449,7 @@ func doCap(c *vh.Ctx, cc *capCase) {
 		return
 	}
 	if errDueAt < 0 {
-		ok := srv.waitFor(1, false, 3*waitTimeout)
+		ok := srv.count() >= 1
 		got := srv.snapshot()
 		if !ok || srv.errSeen || len(got) != 1 || string(got[0].Raw) != string(msg) {
 			c.Res.Violate("monitor", "cap-legitimate-message-rejected", fmt.Sprintf("message of %d bytes (cap %d; the incomplete buffer never exceeds the cap) not delivered: err=%q", len(msg), cc.Cap, srv.errText), cc)
